@@ -33,9 +33,9 @@ ObsIs(o) == ViewIs(o.cur, cur') /\ ViewIs(o.orig, orig')
 
 TrFeaturesHS == IsEvent("FeaturesHS") /\ FeaturesHS(PortMap(Ev.args.ports)) /\ Ev.wf
 TrEarly == IsEvent("EarlyStatus") /\ EarlyStatus(Ev.args.r, Ev.args.p, Rec(Ev.args.rec)) /\ Ev.wf
-TrBarrier == IsEvent("Barrier") /\ Barrier /\ Ev.wf /\ ObsIs(Ev.obs)
-TrStatus == IsEvent("Status") /\ Status(Ev.args.r, Ev.args.p, Rec(Ev.args.rec)) /\ Ev.wf /\ ObsIs(Ev.obs)
-TrFeatures == IsEvent("Features") /\ Features(PortMap(Ev.args.ports)) /\ Ev.wf /\ ObsIs(Ev.obs)
+TrBarrier == IsEvent("Barrier") /\ Barrier(Ev.args.lis) /\ Ev.wf /\ ObsIs(Ev.obs)
+TrStatus == IsEvent("Status") /\ Status(Ev.args.r, Ev.args.p, Rec(Ev.args.rec), Ev.args.lis) /\ Ev.wf /\ ObsIs(Ev.obs)
+TrFeatures == IsEvent("Features") /\ Features(PortMap(Ev.args.ports), Ev.args.lis) /\ Ev.wf /\ ObsIs(Ev.obs)
 
 TrNext == TrFeaturesHS \/ TrEarly \/ TrBarrier \/ TrStatus \/ TrFeatures
 TrSpec == TrInit /\ [][TrNext]_tvars
